@@ -258,7 +258,18 @@ func reportAll(kind string, vs []Viol, mk func(v Viol) Doc) string {
 }
 
 func TestPropRoundTrip(t *testing.T) {
-	rapid.Check(t, func(t *rapid.T) {
+	rapid.Check(t, propRoundTrip)
+}
+
+// FuzzRoundTrip / FuzzCorrupt drive the same properties (same generators, same
+// oracles) from Go's native coverage-guided fuzzer: the fuzzer's bytes are the
+// entropy rapid draws from (thorough tier only, bounded -fuzztime).
+func FuzzRoundTrip(f *testing.F) { f.Fuzz(rapid.MakeFuzz(propRoundTrip)) }
+
+func FuzzCorrupt(f *testing.F) { f.Fuzz(rapid.MakeFuzz(propCorrupt)) }
+
+func propRoundTrip(t *rapid.T) {
+	{
 		c := RTCase{Entries: genTable(t, false)}
 		nt := 8
 		if len(c.Entries) > 300 {
@@ -286,7 +297,7 @@ func TestPropRoundTrip(t *testing.T) {
 			})
 			t.Fatalf("C11 violated: %s: %s (replay %s)", vs[0].Sig, vs[0].Msg, path)
 		}
-	})
+	}
 }
 
 // ---------------------------------------------------------------------------
@@ -511,7 +522,11 @@ func TestPropCorrupt(t *testing.T) {
 		ev.R().Exclude("sst_corrupt")
 		t.Skip("sst_corrupt is switched off")
 	}
-	rapid.Check(t, func(t *rapid.T) {
+	rapid.Check(t, propCorrupt)
+}
+
+func propCorrupt(t *rapid.T) {
+	{
 		c := COCase{Entries: genTable(t, true)}
 		c.Faults = genFaults(t, rapid.IntRange(8, 32).Draw(t, "nfaults"))
 		if ev.Tier() == "thorough" && rapid.IntRange(0, 3).Draw(t, "allpos") == 0 {
@@ -547,7 +562,7 @@ func TestPropCorrupt(t *testing.T) {
 			}
 			t.Fatalf("C11 violated: %s: %s (replay %s)", fvs[0].Sig, fvs[0].Msg, first)
 		}
-	})
+	}
 }
 
 // TestReplay re-runs a saved case without the library.
